@@ -652,9 +652,14 @@ def _tag_evidence(prog, m, idx, bb):
             equal_ok = any(v == "otherwise" for v, _ in taken) and t["values"] == ["0"]
         has_tag = False
         has_eq_text = tag_switch
+        loops_of_bb = [body for h, body in m.loops() if bb in body]
         for cb, ct in calls:
             c = m.callee(ct) or {}
             path = c.get("path", "")
+            if any(cb not in body for body in loops_of_bb):
+                # read before the loop that contains the use: the op list and the index change inside the loop, so a tag
+                # read outside of it says nothing about ops[idx] now (a hoisted `prev_is_equal` flag is stale)
+                continue
             if _mentions_equal(ct.get("src")):
                 has_eq_text = True
             if path == "types::DiffOp::tag" and ct["args"] and _elem_index_of(m, m.resolve_operand(ct["args"][0])) == idx:
